@@ -1,5 +1,6 @@
 import XtModel.Model.Wire
 import XtModel.Model.Encoding
+import XtModel.Model.TranscodeWire
 import XtModel.Model.TomlOrder
 
 /-!
@@ -104,6 +105,8 @@ def tomlorder (fs : List String) : String :=
 def answer (fs : List String) : String :=
   match fs with
   | "encdetect" :: _ | "reencode" :: _ | "reencstream" :: _ => encoding fs
+  | ["transcode", tree, script] => Xt.TranscodeWire.runTranscode tree script
+  | ["valuepath", tree, script] => Xt.TranscodeWire.runValuePath tree script
   | "tomlorder" :: _ => tomlorder fs
   | _ => "bad-engine"
 
